@@ -5,7 +5,7 @@
    of C09 (the harness runs the bit-exact binary64 instance). *)
 From Coq Require Import List ZArith Lia.
 Import ListNotations.
-From V Require Import Base.U32 Base.Iface Gen.RsConsts C09.Model C09.Proofs C10.Model C10.Frame C10.Proofs C10.Autocal C10.Calibrated.
+From V Require Import Base.U32 Base.Iface Gen.RsConsts C09.Model C09.Proofs C10.Model C10.Frame C10.Proofs C10.Autocal C10.Calibrated C10.Conv5 C10.Conv6.
 Local Open Scope Z_scope.
 
 (* Bounded power, every situation in which no travel can be accounted (position unknown: not calibrated, calibration
@@ -108,3 +108,50 @@ Theorem C10_calibrated_callback_is_C09_accounting : forall o, fp_ok o -> forall 
   carry_of up d' = m_time m /\ m_off m = false /\ time1 d' = time1 d /\ time2 d' = time2 d.
 Proof. exact cal_step_thm. Qed.
 Print Assumptions C10_calibrated_callback_is_C09_accounting.
+
+(* Convergence (core clause of C10), calibrated roller shutter without tilt, board without the auto-calibration flag.
+   d0    : at rest (both outputs off, no delayed trigger pending, position known, no auto-calibration in progress;
+           any finished, stuck or absent previous task), callback stamp current;
+   TASK p: any target 0..100 (tilt -1) that differs from the currently REPORTED position (a target equal to the
+           reported position is ignored by supla_esp_gpio_rs_add_task: finding retarget-to-current-position-ignored);
+   cbs   : ANY list of timer callbacks, intervals 0 < dt <= tau, ANY sensor readings, ANY margin setting.
+   As soon as the callbacks span  travel needed + max(end-stop margin, one position unit + 2 us) + 1.001 s + 2 tau + 3 us
+   (travel needed = |start - target| / 10000 of the full time of the direction): both outputs are off, no trigger is
+   pending, the position is at or past the target in the direction of travel, and the overshoot e (in hundredths of
+   a point) satisfies  e * full_us < 10000 * tau + 30000.  The state stays so for every longer list (the bound is a
+   lower bound on the span, not an exact length).
+   Exclusions = the three known findings: (1) tau coarser than half a point gives the bound below instead of <= 1 point;
+   (2) target = reported position is excluded by `cur_pos d0 <> p`; (3) boards with the auto-calibration flag
+   (power-detection freeze) are excluded by `k_autocal_flag k = false`. *)
+Theorem C10_converges_rs : forall o k tau d0 p cbs,
+  fp_ok o -> rsk k -> k_autocal_flag k = false -> idle d0 -> stamped k d0 -> 0 <= p <= 100 -> cur_pos d0 <> p ->
+  let up := dir_to d0 p in
+  let F := full_k up d0 in
+  30000 <= F * 1000 < 4294967296 -> 0 < tau -> carry_max o k F + tau <= TEN_MINUTES_US ->
+  Forall (fun e => 0 < fst e <= tau) cbs ->
+  Z.abs (C10.Model.pos d0 - 100 - p * 100) * (F * 1000) + 10000 * (carry_max o k F + 1001000 + 2 * tau + 3) <= 10000 * elapsed cbs ->
+  let d := run o k d0 (Task p (-1) :: cbs_of cbs) in
+  up_on d = false /\ down_on d = false /\ delayed d = None /\ known (C10.Model.pos d) = true /\
+  (if up then C10.Model.pos d - 100 <= p * 100 else p * 100 <= C10.Model.pos d - 100) /\
+  Z.abs (C10.Model.pos d - 100 - p * 100) * (F * 1000) < 10000 * tau + 30000.
+Proof. exact C10_converges_rs_thm. Qed.
+Print Assumptions C10_converges_rs.
+
+(* the same in points: raw error <= ceil(10000 tau / full) hundredths; |reported - target| <= that/100 + 0.5 points *)
+Theorem C10_converges_rs_points : forall raw p T tau,
+  0 <= raw -> 30000 <= T -> 0 < tau -> Z.abs (raw - p * 100) * T < 10000 * tau + 30000 ->
+  Z.abs (raw - p * 100) <= (10000 * tau + T - 1) / T /\
+  100 * Z.abs ((raw + 50) / 100 - p) <= (10000 * tau + T - 1) / T + 50.
+Proof.
+  intros raw p T tau Hr HT Htau H.
+  pose proof (overshoot_points (Z.abs (raw - p * 100)) T tau ltac:(lia) HT Htau H) as E.
+  split; [exact E|]. exact (reported_error raw p _ Hr E).
+Qed.
+Print Assumptions C10_converges_rs_points.
+
+(* reported position within one point of the target when the full time is at least 200 callback intervals *)
+Theorem C10_converges_rs_one_point : forall raw p T tau,
+  0 <= raw -> 30000 <= T -> 0 < tau -> 200 * tau <= T -> Z.abs (raw - p * 100) * T < 10000 * tau + 30000 ->
+  Z.abs ((raw + 50) / 100 - p) <= 1.
+Proof. exact reported_one_point. Qed.
+Print Assumptions C10_converges_rs_one_point.
